@@ -3,7 +3,7 @@ from vlib import core
 
 WRAPS = ['epoll_wait', 'timerfd_create', 'timerfd_settime', 'syslog', 'openlog', 'close']
 B_TARGETS = ('send_task_shortwrite', 'pkt_rcvr_task')
-C_TARGETS = ('accept_task', 'connect_task', 'connect_ex_task', 'notify_task')
+C_TARGETS = ('accept_task', 'connect_task', 'connect_ex_task', 'notify_task', 'connect_then_recv_task')
 
 
 def _srcs(main):
